@@ -373,7 +373,7 @@ def decode(model, ids):
            "scan": {"missing": [[ln, dn(d)] for ln, d in model["scan"]["missing"]],
                     "unused": [[ln, dn(f), dn(a)] for ln, f, a in model["scan"]["unused"]]},
            "trace": [[ln, rev[n], r] for ln, n, r in model["trace"]]}
-    for k in ("stage", "star_free", "sound", "precise", "exact", "ustage", "unused_ok"):
+    for k in ("stage", "star_free", "sound", "precise", "exact", "ustage", "unused_ok", "dx", "unused_doc_ok", "tstage", "tsound", "tprecise"):
         if k in model:
             out[k] = model[k]
     if "scandoc" in model:
@@ -707,6 +707,11 @@ def check_case(ctx, case, src, ids, im, mo):
     if stage >= 1 and not (mo.get("sound", True) and mo.get("precise", True)):
         ctx.disagreement("statement check: stage-%d soundness / precision is false on this program" % stage, rec,
                          {"sound": mo.get("sound"), "precise": mo.get("precise")}, mo.get("trace"))
+    tstage = mo.get("tstage", 0) if mo.get("star_free", True) else 0
+    ctx.bump("tfragment:stage%d" % tstage if tstage else "tfragment:outside")
+    if tstage >= 2 and not (mo.get("tsound", True) and mo.get("tprecise", True)):
+        ctx.disagreement("statement check: stage-%d soundness / precision of scan_for_import_issues' missing list is false" % tstage,
+                         rec, {"sound": mo.get("tsound"), "precise": mo.get("tprecise")}, mo.get("trace"))
     ustage = mo.get("ustage", 0) if mo.get("star_free", True) else 0
     ctx.bump("ufragment:stage%d" % ustage if ustage else "ufragment:outside")
     if ustage >= 1 and not mo.get("unused_ok", True):
@@ -913,6 +918,197 @@ def run_unused_witnesses(ctx):
             ctx.bump("witness_no_longer_reproduces:" + fid)
 
 
+# ---------------------------------------------------------------------------------------------
+# oracle-only stream: the initial namespace holds REAL module objects (symbol_needs_import's walk through modules;
+# modelled on the C06 / C20 side - AutoImp/Needs.v -, here only executed)
+
+MODS_STD = {"os": ["path", "sep", "getcwd", "__dict__", "__class__", "__name__", "nope"],
+            "json": ["decoder", "dumps", "__spec__", "nope"],
+            "collections": ["abc", "OrderedDict", "__doc__", "nope"],
+            "concurrent": ["futures", "nope"],
+            "importlib": ["machinery", "import_module", "__dir__", "nope"]}
+MODS_STD2 = {"os.path": ["join", "sep", "__class__", "nope"], "json.decoder": ["JSONDecoder", "nope"],
+             "collections.abc": ["Mapping", "nope"], "concurrent.futures": ["ThreadPoolExecutor", "Future", "wait", "nope"],
+             "importlib.machinery": ["ModuleSpec", "nope"]}
+
+
+def make_mods_case(seed, i):
+    """a namespace of real modules and a source whose lines read dotted chains through them.  Generated modules (all
+    registered in sys.modules under the name they have in the namespace, as symbol_needs_import demands):
+      zpep       attributes served by a module-level __getattr__ (PEP 562), cached or not, next to static ones
+      zpkg       a package: zpkg.sub a real submodule; zpkg.lz* created, registered and set by the package's __getattr__ on
+                 first access (lazy importer); every submodule has a PEP 562 attribute of its own
+      zsub       an instance of a ModuleType subclass: class attribute, property, instance attribute
+    plus stdlib modules (attributes inherited from ModuleType such as __dict__ / __class__; concurrent.futures serves
+    ThreadPoolExecutor through PEP 562 until first use)."""
+    r = cm.rng(seed, "c05mods", i)
+    spec = {"zpep": {"static": ["sa", "sb"], "dyn": ["da", "db"], "cache": r.random() < .5},
+            "zpkg": {"static": ["pa"], "subs": ["sub"], "lazy": ["lza", "lzb"], "subdyn": ["sd"], "substatic": ["sx"]},
+            "zsub": {"cls": ["inh"], "prop": ["pr"], "own": ["oa"]}}
+    roots = ["zpep", "zpkg", "zsub"] + list(MODS_STD)
+    present = [x for x in roots if r.random() < .8]
+    extra = [x for x in ["zzmiss", "plainv"] if r.random() < .5]        # zzmiss: not in the namespace; plainv: a non-module value
+    lines = []
+    for _ in range(r.randint(3, 9)):
+        root = r.choice(roots + ["zzmiss", "plainv"])
+        if root == "zpep":
+            chain = [r.choice(spec["zpep"]["static"] + spec["zpep"]["dyn"] + ["nope"])]
+            if r.random() < .3:
+                chain.append(r.choice(["x", "nope"]))
+        elif root == "zpkg":
+            first = r.choice(spec["zpkg"]["static"] + spec["zpkg"]["subs"] + spec["zpkg"]["lazy"] + ["nope"])
+            chain = [first]
+            if first in spec["zpkg"]["subs"] + spec["zpkg"]["lazy"] and r.random() < .7:
+                chain.append(r.choice(spec["zpkg"]["subdyn"] + spec["zpkg"]["substatic"] + ["nope", "__dict__"]))
+        elif root == "zsub":
+            chain = [r.choice(spec["zsub"]["cls"] + spec["zsub"]["prop"] + spec["zsub"]["own"] + ["nope", "__class__"])]
+        elif root in MODS_STD:
+            first = r.choice(MODS_STD[root])
+            chain = [first]
+            if root + "." + first in MODS_STD2 and r.random() < .7:
+                chain.append(r.choice(MODS_STD2[root + "." + first]))
+        else:
+            chain = [r.choice(["a", "b"])] if r.random() < .6 else []
+        lines.append(".".join([root] + chain))
+    return {"kind": "mods", "i": i, "spec": spec, "present": present + [x for x in extra if x == "plainv"], "src": "\n".join(lines) + "\n"}
+
+
+def build_universe(spec, present):
+    import importlib
+    import sys
+    import types
+
+    class Obj:
+        def __init__(self):
+            self.x = 1
+    for k in [k for k in sys.modules if k.split(".")[0] in ("zpep", "zpkg", "zsub")]:
+        del sys.modules[k]
+    ns = {}
+    zp = types.ModuleType("zpep")
+    for a in spec["zpep"]["static"]:
+        setattr(zp, a, Obj())
+
+    def zp_getattr(name, _m=zp, _dyn=tuple(spec["zpep"]["dyn"]), _cache=spec["zpep"]["cache"]):
+        if name in _dyn:
+            v = Obj()
+            if _cache:
+                setattr(_m, name, v)
+            return v
+        raise AttributeError("module 'zpep' has no attribute %r" % name)
+    zp.__getattr__ = zp_getattr
+    sys.modules["zpep"] = zp
+
+    def submodule(full):
+        m = types.ModuleType(full)
+        for a in spec["zpkg"]["substatic"]:
+            setattr(m, a, Obj())
+
+        def g(name, _dyn=tuple(spec["zpkg"]["subdyn"]), _full=full):
+            if name in _dyn:
+                return Obj()
+            raise AttributeError("module %r has no attribute %r" % (_full, name))
+        m.__getattr__ = g
+        sys.modules[full] = m
+        return m
+    zk = types.ModuleType("zpkg")
+    zk.__path__ = []
+    for a in spec["zpkg"]["static"]:
+        setattr(zk, a, Obj())
+    for a in spec["zpkg"]["subs"]:
+        setattr(zk, a, submodule("zpkg." + a))
+
+    def zk_getattr(name, _m=zk, _lazy=tuple(spec["zpkg"]["lazy"])):
+        if name in _lazy:
+            sub = submodule("zpkg." + name)
+            setattr(_m, name, sub)
+            return sub
+        raise AttributeError("module 'zpkg' has no attribute %r" % name)
+    zk.__getattr__ = zk_getattr
+    sys.modules["zpkg"] = zk
+
+    class SubMod(types.ModuleType):
+        pass
+    for a in spec["zsub"]["cls"]:
+        setattr(SubMod, a, Obj())
+    for a in spec["zsub"]["prop"]:
+        setattr(SubMod, a, property(lambda self: Obj()))
+    zs = SubMod("zsub")
+    for a in spec["zsub"]["own"]:
+        setattr(zs, a, Obj())
+    sys.modules["zsub"] = zs
+    gen = {"zpep": zp, "zpkg": zk, "zsub": zs}
+    for name in present:
+        if name in gen:
+            ns[name] = gen[name]
+        elif name == "plainv":
+            ns[name] = Obj()
+        else:
+            ns[name] = importlib.import_module(name)
+            for sub in MODS_STD2:
+                if sub.split(".")[0] == name and sub != "importlib.machinery":
+                    importlib.import_module(sub)
+    return ns
+
+
+def impl_mods(c):
+    """find_missing_imports(src, [namespace of real modules]) first, then the oracle: every line and every reported name is
+    evaluated in that namespace"""
+    import builtins
+    from pyflyby import find_missing_imports
+    ns = build_universe(c["spec"], c["present"])
+    out = {}
+    try:
+        out["fm"] = sorted(str(x) for x in find_missing_imports(c["src"], [ns]))
+    except Exception as e:
+        out["fm"] = {"exc": type(e).__name__, "msg": str(e)[:200]}
+        return out
+
+    def ev(text):
+        try:
+            eval(compile(text, "<read>", "eval"), dict(vars(builtins)), dict(ns))
+            return ["ok"]
+        except NameError as e:
+            return ["NameError", getattr(e, "name", None)]
+        except AttributeError:
+            return ["AttributeError"]
+        except Exception as e:
+            return ["other", type(e).__name__]
+    out["lines"] = [[ln, ev(ln)] for ln in c["src"].split("\n") if ln]
+    out["reported"] = [[n, ev(n)] for n in out["fm"]]
+    return out
+
+
+def check_mods(ctx, case, im):
+    rec = {"i": case["i"], "kind": "mods", "src": case["src"], "spec": case["spec"], "present": case["present"]}
+    ctx.bump("mods:cases")
+    if isinstance(im.get("fm"), dict):
+        ctx.violation("find_missing_imports raised on reads through real modules", rec, im["fm"])
+        ctx.count({"src": case["src"], "ns": case["present"]}, False)
+        return
+    for n, res in im["reported"]:
+        ctx.bump("mods:reported")
+        if res[0] == "ok":
+            ctx.violation("reported missing although every lookup of the dotted name succeeds", rec,
+                          {"name": n, "reported": im["fm"], "namespace": case["present"]})
+    for ln, res in im["lines"]:
+        ctx.bump("mods:read_" + res[0])
+        if res[0] == "NameError" and not any(n.split(".")[0] == res[1] for n in im["fm"]):
+            ctx.violation("NameError at run time, nothing rooted at the name is reported", rec,
+                          {"line": ln, "name": res[1], "reported": im["fm"]})
+    ctx.count({"src": case["src"], "ns": case["present"]}, bool(im["fm"]))
+
+
+def run_mods(ctx, n):
+    cases = [make_mods_case(ctx.seed, i) for i in range(n)]
+    impl = cm.run_impl("c05", "impl_mods", cases, timeout_case=30)
+    for c, im in zip(cases, impl):
+        if "__exc__" in im or "__timeout__" in im:
+            ctx.bump("mods:worker_exception")
+            ctx.disagreement("module-object stream: worker failed", {"i": c["i"], "kind": "mods", "src": c["src"]}, im, None)
+            continue
+        check_mods(ctx, c, im)
+
+
 def run(ctx):
     cm.check_anchors(ctx, ANCHORS)
     run_witnesses(ctx)
@@ -927,11 +1123,14 @@ def run(ctx):
         "fragment:stage2 / fragment:stage3 / fragment:outside (and ufragment:*) are the MEASURED number of programs inside "
         "Fragment.s1_block / s2_block / s3_block (with star-free namespaces) / none - only those inside a stage are "
         "covered by a theorem, and each of them is also checked against the proved statement by vm_compute; "
+        "plus an oracle-only stream (1 in 5 evaluations, counters mods:*): 3-9 dotted reads through a namespace of real module objects; "
         "non-trivial = a name is reported missing, an import unused, or CPython recorded a failing global lookup; "
         "distinct by hash of (source, namespaces)")
     ctx.assumptions += [
         "names are ids allocated monotonically in string order; rendering puts every statement header on one line",
-        "initial namespaces hold non-module values (symbol_needs_import's module walk is M8 / C06-C07)",
+        "in the modelled stream the initial namespaces hold non-module values (symbol_needs_import's module walk is modelled on the C06 / C20 side, AutoImp/Needs.v); "
+        "the oracle-only stream mods:* holds REAL module objects (stdlib, PEP 562 __getattr__, lazily importing package, ModuleType subclass) - no model: "
+        "a reported dotted name must fail to evaluate in that namespace, a NameError at run time must be reported (an AttributeError is not: precision is judged on the root)",
         "PySem = CPython on fully executed programs is an oracle assumption, compared by execution on every run",
         "the bytecode variant _find_loads_without_stores_in_code is NOT modelled",
     ]
@@ -940,11 +1139,20 @@ def run(ctx):
     step = 3000
     for k in range(0, len(cases), step):
         run_cases(ctx, cases[k:k + step])
+    run_mods(ctx, (150 if ctx.quick else 3000) * ctx.scale)
 
 
 def replay(payload):
     """re-run one recorded case through implementation, model and oracle; print the three results"""
     case = payload.get("case") or payload["disagreements"][0]["case"]
+    if case.get("kind") == "mods":
+        ctx = cm.Ctx("C05", "replay", 0)
+        im = cm.run_impl("c05", "impl_mods", [case], jobs=1)[0]
+        check_mods(ctx, case, im)
+        print(case["src"])
+        print(json.dumps({"namespace": case["present"], "impl": im,
+                          "oracle_violations": [{"name": v["name"], "detail": v["detail"]} for v in ctx.violations]}, indent=1, default=str))
+        return 0
     if "prog" not in case:
         print("case has no term")
         return 1
